@@ -15,6 +15,9 @@ STRINGS = [
     # ordinary prose: long runs of words and then punctuation a unit expression cannot contain
     "maximal conductance times the open probability of the fast sodium current (uA/uF)",
     "see Beeler and Reuter 1977, equation 12 of the original paper.",
+    # characters that some notion of "line" treats as a line break although the language does not (only \n ends a
+    # comment): form feed, vertical tab, NEL, LINE SEPARATOR, a lone carriage return, file separator
+    "page\x0cbreak then prose", "nel\x85expressions(\"Z\")", "ls\u2028dx_dt = 0", "cr\rstates(q=1)", "vt\x0bfs\x1cx = 3",
 ]
 
 
